@@ -762,7 +762,9 @@ static std::string exec(const std::vector<std::string>& t, std::string& preds) {
             bool inj = u1.is_null(upa::url::QUERY) && u1.is_null(upa::url::FRAGMENT) && u1.is_file_scheme() && u1.username().empty() && u1.port().empty();
             preds += inj ? " inj=1" : " inj=0";
             std::string p1;
-            try { p1 = upa::path_from_file_url(u1, fmt); } catch (const upa::url_error&) { return out + " p1=F"; }
+            // "for every accepted path the round trip reaches a fixed point after one step": the URL just
+            // produced must convert back
+            try { p1 = upa::path_from_file_url(u1, fmt); } catch (const upa::url_error&) { preds += " fix=0"; return out + " p1=F"; }
             out += " p1=" + hx(p1);
             preds += shape_ok(p1) ? " shape=1" : " shape=0";
             if (!windows && wf) {
